@@ -13,7 +13,7 @@ import json, os, shutil, subprocess, sys, tempfile, concurrent.futures
 
 VERIF = os.path.dirname(os.path.dirname(os.path.abspath(__file__)))
 REPO = os.environ.get("ANKO_ROOT", "/repo")
-ENV = dict(os.environ, GOFLAGS="-mod=mod", GOPROXY="off", GOSUMDB="off", GOTOOLCHAIN="local", GOWORK="off")
+ENV = dict(os.environ, GOFLAGS="-mod=mod -trimpath", GOPROXY="off", GOSUMDB="off", GOTOOLCHAIN="local", GOWORK="off")
 
 def scratch():
     d = tempfile.mkdtemp(prefix="ankomut.")
